@@ -509,6 +509,10 @@ func c04Cases(c runCfg) ([]*scratch.Pkg, []string, map[string]interface{}) {
 			for k, cl := range cells[lo:hi] {
 				name := fmt.Sprintf("p%d%s", k, []string{"", "-x", "_y", "Id"}[k%4])
 				in := "query"
+				if !strings.HasPrefix(cl.loc, "header") && k%3 == 2 {
+					// query names with bytes that are escaped on the wire (page[size], $filter, ids[], a space)
+					name = fmt.Sprintf("p%d%s", k, []string{"[size]", "$f", "[]", " b", ":c", ",d"}[(k/3)%6])
+				}
 				if strings.HasPrefix(cl.loc, "header") {
 					in = "header"
 					name = "X-" + strings.Title(name)
